@@ -38,10 +38,10 @@ CORPUS="$FZ/corpus-proof_bytes-$TIER"; rm -rf "$CORPUS"; mkdir -p "$CORPUS" "$FZ
 cp "$ROOT"/regress/C06/*.fuzz "$CORPUS"/ 2>/dev/null
 SEED=$(( ${VERIF_SEED:-0} + 1 ))
 if [ "$TIER" = "thorough" ]; then ARGS="-max_total_time=900 -jobs=12 -workers=12"; else ARGS="-runs=150000"; fi
-OUT="$FZ/run-proof_bytes.log"
+OUT="$FZ/run-proof_bytes.log"; rm -f "$ROOT"/harness/fuzz-*.log
 ( cd "$ROOT/harness" && cargo +nightly fuzz run --fuzz-dir "$ROOT/fuzz" proof_bytes "$CORPUS" -- $ARGS -seed=$SEED -len_control=0 -max_len=16384 -rss_limit_mb=4096 -malloc_limit_mb=1024 -timeout=60 -artifact_prefix="$FZ/artifacts/" -print_final_stats=1 >"$OUT" 2>&1 )
 FRC=$?
-RUNS=$(grep -h "stat::number_of_executed_units" "$OUT" "$FZ"/fuzz-*.log 2>/dev/null | awk '{s+=$2} END {print s+0}')
+RUNS=$(grep -h "stat::number_of_executed_units" "$OUT" "$ROOT"/harness/fuzz-*.log 2>/dev/null | awk '{s+=$2} END {print s+0}')
 python3 - "$ROOT/evidence/C06.json" "$RUNS" "$FRC" "$TIER" <<'PY'
 import json,sys
 p,runs,frc,tier=sys.argv[1],int(sys.argv[2]),int(sys.argv[3]),sys.argv[4]
@@ -57,7 +57,7 @@ if [ $FRC -ne 0 ]; then
   ART=$(ls -t "$FZ"/artifacts/* 2>/dev/null | head -1)
   if [ -n "$ART" ]; then
     mkdir -p "$ROOT/work/replay"; DEST="$ROOT/work/replay/C06-libfuzzer-$(basename "$ART").fuzz"; cp "$ART" "$DEST"
-    grep -h -m1 "C06 VIOLATION" "$OUT" "$FZ"/fuzz-*.log 2>/dev/null | head -1
+    grep -h -m1 "C06 VIOLATION" "$OUT" "$ROOT"/harness/fuzz-*.log 2>/dev/null | head -1
     echo "VIOLATION property=C06 replay=$DEST"; exit 1
   fi
   echo "INCONCLUSIVE: fuzzer exited with $FRC without an artifact (see $OUT)"; exit 2
